@@ -18,6 +18,12 @@ func c12World(tp *Tape, env *Env) (*Plan, *Violation) {
 		WLine: 7, WOptions: 6, WIf: 4, WSet: 4, WJump: 1, WJumpE: 0, WStop: 5, WCall: 3, WCommand: 3,
 		NVars: [3]int{1, 1, 1}, Probes: true, ExprDepth: 1, InlinePct: 15, CondPct: 20, StopArgs: true, ExprOnlyLines: true, NoStringSelfGrowth: true,
 	}
+	if tp.Chance(12, "hostpanics") {
+		// a host whose function panics with a value of its own and that survives it (recover around Next): whatever
+		// the runner makes of that, an end it reports afterwards is final
+		cfg.HostPanics = true
+		cfg.WCall += 3
+	}
 	if tp.Chance(40, "nocmd") {
 		cfg.WCommand = 0
 	} else {
